@@ -77,10 +77,16 @@ pub fn check_picture(pic: &str) -> Result<bool, String> {
         (None, Ok(())) => return Err(format!("picture {pic:?} compiles although it is not a sequence of (at most 36) documented tokens")),
         (None, Err(Error::InvalidFormat(_))) => {
             // the one-shot wrappers of all six types must reject it as a format error too
-            for kind in KINDS {
-                match ad::parse_type(kind, "1", pic).map_err(|p| format!("{}::parse(\"1\", {pic:?}): {p}", kind.name()))? {
-                    Err(Error::InvalidFormat(_)) => {}
-                    other => return Err(format!("picture {pic:?} is not a sequence of (at most 36) documented tokens and Formatter::try_new rejects it, but {}::parse answers {other:?} instead of a format error", kind.name()).chars().take(900).collect()),
+            // ... whatever the input text is (ASCII, empty, non-ASCII, long): "1" and one more text,
+            // rotating with the picture and the type
+            const TEXTS: [&str; 7] = ["", "\u{a0}02:03", "\u{ff11}2-03", "\u{2212}1", "2021-12-31 23:59:59.123456 PM Monday December", " ", "+0000000000000000000000000000000000000000000000000000000000000000000000000000001"];
+            let rot = hash_bytes(0x19e, pic.as_bytes()) as usize;
+            for (ki, kind) in KINDS.into_iter().enumerate() {
+                for text in ["1", TEXTS[(rot + ki) % TEXTS.len()]] {
+                    match ad::parse_type(kind, text, pic).map_err(|p| format!("{}::parse({text:?}, {pic:?}): {p}", kind.name()))? {
+                        Err(Error::InvalidFormat(_)) => {}
+                        other => return Err(format!("picture {pic:?} is not a sequence of (at most 36) documented tokens and Formatter::try_new rejects it, but {}::parse({text:?}, ..) answers {other:?} instead of a format error", kind.name()).chars().take(900).collect()),
+                    }
                 }
                 let v = wrapper_probe(kind);
                 match ad::format_lazy(&v, pic).map_err(|p| format!("{}::format({pic:?}): {p}", kind.name()))? {
@@ -482,7 +488,7 @@ pub fn run(ctx: &Ctx) -> (Stats, Report) {
     st.section("random_token_sequences", &mut mark);
 
     let rep = Report {
-        rule: format!("E1: every string of length 0..={maxlen} over the {}-symbol picture alphabet (exhaustive); near-miss spellings alone and embedded; every single-character substitution, insertion (all 128 ASCII values, also inside a token spelling) and deletion at every position of every token spelling and of composite pictures; 14 invisible / ignorable characters (byte order mark, zero-width and non-breaking spaces, separators, control whitespace) at every token boundary of valid pictures; blank runs of every length 1..=700 (alone, between number tokens, and next to name tokens for every month / weekday name) and of length 2^k-1, 2^k, 2^k+1 for k = 8..=20, 2^k+1 up to 2^25 (all three up to 2^27 in the thorough tier: pictures of 128 MiB); 30..=42 repetitions of every documented token spelling (and of token + separator pairs) around the 36-token limit. E2: proptest token sequences of 0..=40 tokens (34..=38 over-sampled) with random letter case, blank runs up to 600 and an optional near-miss spelling spliced in. Every rendering goes through both Formatter::format and T::format + write!, and the one-shot Timestamp::parse wrapper must not reject an accepted picture as a format error. Oracle: reference longest-match tokenizer: try_new is Ok iff it accepts (<= 36 tokens), rejection must be Error::InvalidFormat, from Formatter::try_new and from the one-shot parse / format wrappers of all six types; for accepted pictures the text formatted for the probe 2003-04-09 17:28:56.123456 (every field distinct) must equal the reference rendering of the reference token list (identifies token identity, name case and exact blank-run length); every letter-case pattern of MONTH / MON / DAY / DY / AM / PM / A.M. / P.M. (alone, doubled, embedded) is formatted for 19 probes covering every month name, every weekday name and both meridians. Run under both build profiles. Non-trivial = accepted by the reference, or rejected but one end-deletion away from an accepted picture, or containing a near-miss spelling.", ALPHABET.len()),
+        rule: format!("E1: every string of length 0..={maxlen} over the {}-symbol picture alphabet (exhaustive); near-miss spellings alone and embedded; every single-character substitution, insertion (all 128 ASCII values, also inside a token spelling) and deletion at every position of every token spelling and of composite pictures; 14 invisible / ignorable characters (byte order mark, zero-width and non-breaking spaces, separators, control whitespace) at every token boundary of valid pictures; blank runs of every length 1..=700 (alone, between number tokens, and next to name tokens for every month / weekday name) and of length 2^k-1, 2^k, 2^k+1 for k = 8..=20, 2^k+1 up to 2^25 (all three up to 2^27 in the thorough tier: pictures of 128 MiB); 30..=42 repetitions of every documented token spelling (and of token + separator pairs) around the 36-token limit. E2: proptest token sequences of 0..=40 tokens (34..=38 over-sampled) with random letter case, blank runs up to 600 and an optional near-miss spelling spliced in. Every rendering goes through both Formatter::format and T::format + write!, and the one-shot Timestamp::parse wrapper must not reject an accepted picture as a format error. Oracle: reference longest-match tokenizer: try_new is Ok iff it accepts (<= 36 tokens), rejection must be Error::InvalidFormat, from Formatter::try_new and from the one-shot parse / format wrappers of all six types (the parse wrappers with an ASCII text and a second text rotating over empty, blank, non-ASCII and long inputs); for accepted pictures the text formatted for the probe 2003-04-09 17:28:56.123456 (every field distinct) must equal the reference rendering of the reference token list (identifies token identity, name case and exact blank-run length); every letter-case pattern of MONTH / MON / DAY / DY / AM / PM / A.M. / P.M. (alone, doubled, embedded) is formatted for 19 probes covering every month name, every weekday name and both meridians. Run under both build profiles. Non-trivial = accepted by the reference, or rejected but one end-deletion away from an accepted picture, or containing a near-miss spelling.", ALPHABET.len()),
         assumptions: vec!["a name token with lower-case first and upper-case second letter, and a mixed-case meridian token, have no style fixed by the statement: compared ignoring case".into()],
         exhaustive: false,
         extra: Default::default(),
